@@ -125,6 +125,7 @@ class World:
         self.cmdlog = []
         self.tid = 0
         self.cmd_fault = None
+        self.fail_cmd = None      # dict(match=regex, nth=k): the k-th matching (non-push) git command of the job fails
         self.cred_url = None
         self.extra_secrets = set()
         self.faulted = False
@@ -438,6 +439,13 @@ class World:
         cwd = kw.get('cwd', '')
         if cwd == self.bare:
             return orig(command, *a, **kw)      # the mock git host's own commands, not Bert-E's
+        if self.current is not None and self.fail_cmd and not is_push and \
+                re.search(self.fail_cmd['match'], command):
+            self.fail_cmd['seen'] = self.fail_cmd.get('seen', 0) + 1
+            if self.fail_cmd['seen'] - 1 == self.fail_cmd.get('nth', 0):
+                from bert_e.lib.simplecmd import CommandError
+                self.cmdlog.append(command + '   # verif: made to fail')
+                raise CommandError('verif: simulated failure of `%s`' % command.split('%')[0].strip())
         if self.current is not None:
             self.cmdlog.append(command)
             cf = self.cmd_fault
@@ -663,6 +671,15 @@ class World:
         self._commit(t, self._fname('third'))
         sh('git push -q origin %s' % name, t)
 
+    def sync_mirror(self):
+        """What the start of any job does to Bert-E's local mirror (~/.bert-e/<slug>.git): refresh it.  Stands for
+        an event without effect delivered at this point."""
+        top = os.path.join(self.home, '.bert-e')
+        if os.path.isdir(top):
+            for d in os.listdir(top):
+                if d.endswith('.git'):
+                    sh('git fetch -q --prune', os.path.join(top, d), check=False)
+
     def third_push(self, branch):
         t = self.third
         sh('git fetch -q --prune origin; git checkout -q -B %s origin/%s' % (branch, branch), t)
@@ -700,7 +717,7 @@ class World:
                 desc['cmd'] = self.pending_cmd(int(ids[0])) if ids else ''
             else:
                 desc['cmd'] = self.pending_cmd(desc['arg'])
-        self.faulted = self.crash_at is not None or bool(self.before_push) or \
+        self.faulted = self.crash_at is not None or bool(self.before_push) or bool(self.fail_cmd) or \
             os.path.exists(os.path.join(self.bare, 'verif_reject'))
         self.current = desc
         self.ops = []
@@ -720,6 +737,7 @@ class World:
             self.current = None
             self.crash_at = None
             self.before_push = {}
+            self.fail_cmd = None
             self.faulted = False
         pending = len(self.berte.task_queue.queue)
         return dict(status=status, details=details, ops=list(self.last_ops), pending=pending)
